@@ -200,6 +200,8 @@ class Gen:
         if self.quick and len(mods) > 40:
             keep = set(mods[:10] + mods[-12:])
             mods = sorted(keep | set(rng.sample(mods, 18 if not self.tiny else 40)))
+        elif not self.tiny and len(mods) > 64:
+            mods = sorted(set(mods[:12] + mods[-20:]) | set(rng.sample(mods, 32)))
         lim = self.B ** (2 * self.digs)
         for m in mods:
             R = self.B ** self.used(m)
@@ -209,8 +211,8 @@ class Gen:
                     m * rng.randrange(1, m + 1), (self.B - 1) * m,
                     rng.getrandbits(self.w * (2 * self.used(m) + 1)), rng.getrandbits(2 * self.maxbits)}
             vals = sorted(v for v in vals if 0 <= v < lim)
-            if self.quick and not self.tiny:
-                vals = sorted(set(vals[:3]) | set(rng.sample(vals, min(len(vals), 13))))
+            if not self.tiny:
+                vals = sorted(set(vals[:3]) | set(rng.sample(vals, min(len(vals), self.n(13, 17)))))
             for a in vals:
                 al = rng.choice([0, 0, 1])
                 for s in (1, -1):
@@ -264,7 +266,7 @@ class Gen:
         if not self.tiny:
             mods += [p for p in NIST_PRIMES if p.bit_length() <= self.maxbits]
         mods = [m for m in mods if m >= 1]
-        nm = self.n(28, 90)
+        nm = self.n(28, 60)
         if len(mods) > nm:
             mods = sorted(set(mods[:8]) | set(rng.sample(mods, nm - 8)))
         for m in mods:
@@ -570,7 +572,7 @@ class Gen:
     # ------------------------------------------------------------ recodings
     def recodings(self):
         rng = self.rng
-        ks = run_scalars(self.maxbits, rng, self.n(40, 300))
+        ks = run_scalars(self.maxbits, rng, self.n(40, 300 if self.tiny else 150))
         if self.quick and len(ks) > 90:
             ks = sorted(set(ks[:20]) | set(rng.sample(ks, 70)))
         big = 4 * self.maxbits + 64
